@@ -106,8 +106,8 @@ static void prop_adapters(Tape &t, Ctx &c) {
     c.label("fam:" + fam.substr(0, fam.find(':'))); c.label(square ? "square" : "rect"); c.label(unsorted3 ? "row-out-of-order(>=3)" : "rows-in-order");
     c.label(size_bucket(A.n));
     size_t n = static_cast<size_t>(A.n), m = static_cast<size_t>(A.m);
-    // Known finding F-tuple-data-empty: col_data()/val_data() of the tuple adapter form `&range[0]` on an empty range when the
-    // matrix has no stored entries (UBSan: reference binding to null pointer).  That one call is made last, see the end of this function.
+    // Former finding F-tuple-data-empty (fixed in /repo): col_data()/val_data() of the tuple adapter formed `&range[0]` on an empty range
+    // when the matrix has no stored entries (UBSan: reference binding to null pointer).  Checked at the end of this function.
     const bool has_entries = A.nnz() > 0;
 
     if (square) {
@@ -186,7 +186,6 @@ static void prop_adapters(Tape &t, Ctx &c) {
     }
     if (square && !has_entries) {
         c.label("matrix-without-entries");
-        if (c.known("F-tuple-data-empty")) return;
         std::vector<int> ptr = conv<int>(A.ptr), col; std::vector<double> val;
         auto T = std::tie(n, ptr, col, val);
         (void)ab::col_data(T); (void)ab::val_data(T);
